@@ -244,7 +244,7 @@ def h_fetch_app(eng, case):
             await app._receive(6, d)
 
     async def forwarder():
-        seen = 0
+        seen = 1 if case.get('prefetch') is not None else 0     # the application's own earlier request gets no answer
         while True:
             while seen >= len(face.out):
                 await _wait_send(face)
@@ -299,6 +299,18 @@ def h_fetch_app(eng, case):
     async def main(loop):
         ml = asyncio.ensure_future(app.main_loop())
         await asyncio.sleep(0)
+        pre = None
+        if case.get('prefetch') is not None:
+            # the application has asked for one of the segments itself a moment ago (a prefetch that the network lost):
+            # an identical Interest is pending while the fetcher requests that segment
+            async def prefetch():
+                try:
+                    await app.express_interest(Name.from_str('/obj') + [Component.from_segment(case['prefetch'])],
+                                               can_be_prefix=False, must_be_fresh=True, lifetime=60000)
+                except Exception:
+                    pass
+            pre = asyncio.ensure_future(prefetch())
+            await asyncio.sleep(0)
         fw = asyncio.ensure_future(forwarder())
         try:
             async for c in segment_fetcher(app, '/obj', timeout=100, retry_times=retry, validator=validator):
@@ -313,6 +325,8 @@ def h_fetch_app(eng, case):
         except Exception as e:
             res['end'] = ('error', exc_sig(e))
         fw.cancel()
+        if pre is not None:
+            pre.cancel()
         app.shutdown()
         try:
             await ml
@@ -390,5 +404,7 @@ def cases(tier, seed):
         cs.append(('fetch_app', {'N': N, 'retry': retry}, {'weight': 3 ** (N + retry), 'split_depth': 3}))
     cs.append(('fetch_app', {'N': 2, 'retry': 1, 'validator': 'rejecting-object'}, {'weight': 9}))
     cs.append(('fetch_app', {'N': None, 'retry': 2}, {'weight': 9}))
+    for k in (1, 2):
+        cs.append(('fetch_app', {'N': 3, 'retry': 2 if k == 1 else 1, 'prefetch': k}, {'weight': 30, 'split_depth': 3}))
     cs.append(('fetch_app', {'N': 2, 'retry': 1, 'lp': True}, {'weight': 9}))
     return cs
